@@ -242,7 +242,12 @@ def _splitmix(x):
 
 def toy_sig(pub, msg):
     h = _fnv(_fnv(0xCBF29CE484222325, pub), msg)
-    n = 40 + h % 50
+    if len(pub) > 0 and pub[0] >= 0xF0:
+        n = 300 + h % 50
+    elif len(pub) > 0 and pub[0] >= 0xE0:
+        n = 1 + h % 8
+    else:
+        n = 40 + h % 50
     s = h
     out = b""
     while len(out) < n:
